@@ -68,8 +68,8 @@ VARIANTS = [
         {"file": BC, "old": '            effective_acks.extend(x["ID"] for x in message["Packets"])\n',
          "new": '            effective_acks = [x["ID"] for x in message["Packets"]]\n'}]},
     {"name": "R3 pop without set_result", "file": BC, "expect": "C19.R3",
-     "old": "            if resend_info:\n                resend_info.completed.set_result(None)\n",
-     "new": "            if resend_info:\n                logging.debug('acked')\n"},
+     "old": "            if resend_info and not resend_info.completed.done():\n                resend_info.completed.set_result(None)\n",
+     "new": "            if resend_info and not resend_info.completed.done():\n                logging.debug('acked')\n"},
     {"name": "R3 track_reliable never appends", "file": BC, "expect": "C19.R3",
      "old": "        self.seen_reliable.append(packet_id)\n", "new": ""},
     {"name": "R3 track_reliable reports seen ids as new", "file": BC, "expect": "C19.R3",
@@ -133,10 +133,10 @@ VARIANTS = [
      "new": "        self.is_alive = False\n        self.unacked_reliable.clear()\n        self.packet_id_base = 0\n"},
     # ------------------------------------------------------------------ R5 budget exhaustion
     {"name": "R5 give-up without failing the future", "file": BC, "expect": "C19.R5",
-     "old": '                resend_info.completed.set_exception(TimeoutError("Exceeded resend limit"))\n', "new": ""},
+     "old": '                if not resend_info.completed.done():\n                    resend_info.completed.set_exception(TimeoutError("Exceeded resend limit"))\n', "new": ""},
     {"name": "R5 exhausted entry still resent", "file": BC, "expect": "C19.R5",
-     "old": '                resend_info.completed.set_exception(TimeoutError("Exceeded resend limit"))\n                continue\n',
-     "new": '                resend_info.completed.set_exception(TimeoutError("Exceeded resend limit"))\n'},
+     "old": '                    resend_info.completed.set_exception(TimeoutError("Exceeded resend limit"))\n                continue\n',
+     "new": '                    resend_info.completed.set_exception(TimeoutError("Exceeded resend limit"))\n'},
     {"name": "R5 budget never decremented", "file": BC, "expect": "C19.R5",
      "old": "            resend_info.tries_left -= 1\n", "new": ""},
     {"name": "R5 exhausted entry never removed", "file": BC, "expect": "C19.R5",
@@ -244,4 +244,30 @@ VARIANTS = [
                 "    def datagram_received(self, data, source_addr: ADDR_TUPLE):\n"},
         {"file": HC, "old": "        if should_handle:\n            region.message_handler.handle(message)\n",
          "new": "        region.message_handler.handle(message)\n"}]},
+    # ------------------------------------------------------------------ D32 (fix 4149389)
+    {"name": "R3 ack completes the future without the done() test (D32 reverted, collect_acks)", "file": BC, "expect": "C19.R3",
+     "old": "            if resend_info and not resend_info.completed.done():\n                resend_info.completed.set_result(None)\n",
+     "new": "            if resend_info:\n                resend_info.completed.set_result(None)\n"},
+    {"name": "R5 give-up fails the future without the done() test (D32 reverted, resend_unacked)", "file": BC, "expect": "C19.R5",
+     "old": "                if not resend_info.completed.done():\n                    resend_info.completed.set_exception(TimeoutError(\"Exceeded resend limit\"))\n",
+     "new": "                resend_info.completed.set_exception(TimeoutError(\"Exceeded resend limit\"))\n"},
+    {"name": "P R3 done() test as a guard clause after the removal", "file": BC, "expect": "silent",
+     "old": "            if resend_info and not resend_info.completed.done():\n                resend_info.completed.set_result(None)\n",
+     "new": "            if not resend_info or resend_info.completed.done():\n                continue\n"
+            "            resend_info.completed.set_result(None)\n"},
+    # ------------------------------------------------------------------ round 8
+    {"name": "R3 dedupe window pruned through a local alias outside the circuit", "file": HC, "expect": "C19.R3",
+     "old": "    async def _handle_ping_check(self, message: Message):\n",
+     "new": "    async def _handle_ping_check(self, message: Message):\n        window = self.circuit.seen_reliable\n"
+            "        if len(window) > 500:\n            window.popleft()\n"},
+    {"name": "P R3 dedupe window only read through a local alias", "file": HC, "expect": "silent",
+     "old": "    async def _handle_ping_check(self, message: Message):\n",
+     "new": "    async def _handle_ping_check(self, message: Message):\n        window = self.circuit.seen_reliable\n"
+            "        LOG.debug(\"%d ids remembered\", len(window))\n"},
+    {"name": "P R1 ack and dedupe on a circuit handed to a static helper", "expect": "silent", "edits": [
+        {"file": HC, "old": ACK + TRK, "new": "            should_handle = self._ack(region.circuit, message)\n"},
+        {"file": HC, "old": "    def datagram_received(self, data, source_addr: ADDR_TUPLE):\n",
+         "new": "    @staticmethod\n    def _ack(circuit, message):\n        circuit.send_acks((message.packet_id,))\n"
+                "        return circuit.track_reliable(message.packet_id)\n\n"
+                "    def datagram_received(self, data, source_addr: ADDR_TUPLE):\n"}]},
 ]
